@@ -116,6 +116,21 @@ def valid_type(dtype):
     return False
 
 
+def canonical_type(dtype):
+    """
+    Returns the name under which a valid odML value data type is stored and under
+    which its conversion functions are found: data type names are not case sensitive,
+    the conversion functions are named in lower case.
+
+    :param dtype: odml.DType or string corresponding to a valid odml data type.
+    :returns: odml.DType members and None as they are, the lower case name otherwise.
+    """
+    if dtype is None or isinstance(dtype, DType) or not isinstance(dtype, str):
+        return dtype
+
+    return dtype.lower()
+
+
 def get(string, dtype=None):
     """
     Converts *string* to the corresponding *dtype*.
